@@ -69,12 +69,14 @@ structure WSec where
   checks : Bool               -- rawWriteLocked (check send/term before each frame) vs sendPacketLocked
   flush : FlushMode           -- rawFlushLocked / wr.Flush / nothing
   recvAfter : Option RecvMode -- some m: this is MsgRecv's inner RawFlush, continue with the receive
+  second : Bool := false      -- this is the ManualFlush re-flush (the second RawFlush of checkRecvFlush)
 deriving Repr, DecidableEq
 
 /-- continuation of `checkFinished` -/
 inductive K where
   | ret (r : Ret)                       -- end of call
-  | recv (park : RecvMode)              -- MsgRecv: flush part finished, go on to the ManualFlush test
+  | recv (park : RecvMode)              -- MsgRecv: the once-flush succeeded, go on to the ManualFlush test
+  | read (park : RecvMode)              -- MsgRecv: flushing is over, go on to read
   | term (c : Call)                     -- inside terminate(): continue the call `c`
 deriving Repr, DecidableEq
 
@@ -371,7 +373,11 @@ def stepPC (s : St) (t : Tid) : PC → Option St
     some (s.upd t { s.sh with w := none }
       (match sec.recvAfter with
        | none => .cf1 (.ret r)
-       | some park => .cf1 (if r = .nil then .recv park else .ret r)))
+       -- checkRecvFlush: a flush refused/failed on a terminated stream does not pre-empt the receive
+       | some park =>
+         .cf1 (if r = .nil then (if sec.second then .read park else .recv park)
+               else if s.sh.term.isSome then .read park
+               else .ret r)))
   -- checkFinished
   | .cf1 k => if s.sh.term.isSome then some (s.setPc t (.cf2 k)) else some (s.setPc t (.cfEnd k))
   | .cf2 k => if !s.sh.wHeld then some (s.setPc t (.cf3 k)) else some (s.setPc t (.cfEnd k))
@@ -388,7 +394,9 @@ def stepPC (s : St) (t : Tid) : PC → Option St
     | .ret r => some (s.upd t sh' (.done r))
     | .recv park =>
       some (s.upd t sh'
-        (if s.opts.manualFlush && s.sh.wFlag then .lockW (.msgRecv park) (flushSec (some park)) else .lockR park))
+        (if s.opts.manualFlush && s.sh.wFlag then .lockW (.msgRecv park) { flushSec (some park) with second := true }
+         else .lockR park))
+    | .read park => some (s.upd t sh' (.lockR park))
     | .term c => some (s.setPc t (afterTerm c))
   -- receive
   | .lockR park => if s.sh.r.isSome then none else some (s.upd t { s.sh with r := some t } (.heldR park))
